@@ -7,6 +7,7 @@ import (
 	"time"
 
 	"github.com/XiXi-2024/xixi-kv/verifrt/iorec"
+	"github.com/XiXi-2024/xixi-kv/verifrt/sched"
 )
 
 // File wraps *os.File; the mutating methods are intercepted, everything else is promoted.
@@ -71,7 +72,33 @@ func (f *File) Write(b []byte) (n int, err error) {
 func (f *File) WriteString(s string) (n int, err error) { return f.Write([]byte(s)) }
 
 // ReadAt: reads are not I/O events (they change nothing on disk), but the fault injector may fail them.
+// ReadPoints makes every read-side call on a file (ReadAt, Read, Seek) a schedule point: two readers of one
+// descriptor can then be interleaved between a Seek and the Read that relies on it.
+var ReadPoints bool
+
+func (f *File) Read(b []byte) (int, error) {
+	if ReadPoints {
+		sched.Yield()
+	}
+	if iorec.Before != nil {
+		if err := iorec.Before("read", f.path, "", int64(len(b))); err != nil {
+			return 0, err
+		}
+	}
+	return f.File.Read(b)
+}
+
+func (f *File) Seek(offset int64, whence int) (int64, error) {
+	if ReadPoints {
+		sched.Yield()
+	}
+	return f.File.Seek(offset, whence)
+}
+
 func (f *File) ReadAt(b []byte, off int64) (int, error) {
+	if ReadPoints {
+		sched.Yield()
+	}
 	if iorec.Before != nil {
 		if err := iorec.Before("read", f.path, "", int64(len(b))); err != nil {
 			return 0, err
